@@ -14,6 +14,9 @@ import (
 	"go.dedis.ch/kyber/v4/group/edwards25519"
 	"go.dedis.ch/kyber/v4/group/edwards25519vartime"
 	"go.dedis.ch/kyber/v4/group/p256"
+	"go.dedis.ch/kyber/v4/pairing"
+	"go.dedis.ch/kyber/v4/pairing/bls12381/kilic"
+	"go.dedis.ch/kyber/v4/pairing/bn254"
 	"go.dedis.ch/kyber/v4/proof"
 	"go.dedis.ch/kyber/v4/proof/dleq"
 	"go.dedis.ch/kyber/v4/share"
@@ -285,6 +288,57 @@ func c20FreshSuitesKind() c20kind {
 	}}
 }
 
+// c20CustomDSTKind: pairing suites configured with the caller's own domain separation tags (lengths that are not
+// allocation size classes, handed over as sub-slices of larger buffers), then shared: hash-to-group and BLS sign/verify
+// only read the suite.
+func c20CustomDSTKind() c20kind {
+	return c20kind{name: "custom-dst", build: func(rng *gen.Rng) []c20action {
+		var acts []c20action
+		msg := []byte("shared message")
+		mk := func(n int) []byte { // a tag of length n inside a larger buffer
+			b := make([]byte, n+5+rng.IntN(20))
+			copy(b, "BLS_SIG_BN254G1_XMD:KECCAK-256_SVDW_RO_NUL_-verif-custom-tag-0123456789")
+			return b[:n]
+		}
+		type hs struct {
+			name string
+			s    pairing.Suite
+		}
+		var suites []hs
+		for _, n := range []int{1, 17, 43, 47, 100} {
+			b := bn254.NewSuite()
+			b.SetDomainG1(mk(n))
+			b.SetDomainG2(mk(n + 1))
+			suites = append(suites, hs{fmt.Sprintf("bn254/dst%d", n), b})
+			suites = append(suites, hs{fmt.Sprintf("kilic/dst%d", n), kilic.NewBLS12381SuiteWithDST(mk(n), mk(n+1))})
+		}
+		for _, x := range suites {
+			x := x
+			for _, gk := range []struct {
+				n string
+				g kyber.Group
+			}{{"G1", x.s.G1()}, {"G2", x.s.G2()}} {
+				gk := gk
+				if _, ok := gk.g.Point().(groups.Hasher); !ok {
+					continue
+				}
+				acts = append(acts, c20action{x.name + "." + gk.n + ".Hash(local receiver)", func() string {
+					return fp(gk.g.Point().(groups.Hasher).Hash(msg).MarshalBinary())
+				}})
+			}
+			sch := bls.NewSchemeOnG1(x.s)
+			sk, pk := sch.NewKeyPair(rng.Stream())
+			sig, err := sch.Sign(sk, msg)
+			if err != nil {
+				panic(err)
+			}
+			acts = append(acts, c20action{x.name + " bls.Sign(shared key)", func() string { return fp(sch.Sign(sk, msg)) }})
+			acts = append(acts, c20action{x.name + " bls.Verify(shared key)", func() string { return fpe(sch.Verify(pk, msg, sig)) }})
+		}
+		return acts
+	}}
+}
+
 func c20SchemesKind() c20kind {
 	return c20kind{name: "schemes/ed25519+p256", build: func(rng *gen.Rng) []c20action {
 		var acts []c20action
@@ -451,6 +505,7 @@ func c20(r *mon.R) {
 		}
 		kinds = append(kinds, c20SchemesKind())
 		kinds = append(kinds, c20FreshSuitesKind())
+		kinds = append(kinds, c20CustomDSTKind())
 	}
 	reps := r.N(3, 40)
 	iters := r.N(4, 8)
